@@ -7,6 +7,7 @@ from rules import parser as P
 from rules import parse_e2 as PE
 from rules.c17 import shape, offsets
 
+THOROUGH_CONFIGS = ("release", "arbitrary")
 LEVEL = "other"
 MSG = "stun_types::message::Message::<'a>::"
 
